@@ -168,7 +168,7 @@ Inductive step_spec (p : policy) (cn : cancel) (bd : body) (st : bstate) (sc : l
     next_beh sc = (bh, sc') -> serve cn bd st bh t = (got, st1, o, t1) ->
     (generic_retry p attempt o = DStop \/
      (exists d, generic_retry p attempt o = DWait d /\
-                (d < 0 \/ rewind bd st1 = RwNoGetBody \/ rewind bd st1 = RwGetBodyErr))) ->
+                (d < 0 \/ rt_rewind bd st1 = RwNoGetBody \/ rt_rewind bd st1 = RwGetBodyErr))) ->
     step_spec p cn bd st sc t attempt tr
               (Done (mkOut (result_of_outcome o) st1 sc' t1 (tr ++ [EAttempt t got])))
 | SSfail bh sc' got st1 o t1 :
@@ -183,14 +183,14 @@ Inductive step_spec (p : policy) (cn : cancel) (bd : body) (st : bstate) (sc : l
               (Done (mkOut RPanic st1 sc' t1 (tr ++ [EAttempt t got])))
 | SScancel bh sc' got st1 o t1 d st2 :
     next_beh sc = (bh, sc') -> serve cn bd st bh t = (got, st1, o, t1) ->
-    generic_retry p attempt o = DWait d -> 0 <= d -> rewind bd st1 = RwOk st2 ->
-    cancelled_before cn (t1 + d) = true ->
+    generic_retry p attempt o = DWait d -> 0 <= d -> rt_rewind bd st1 = RwOk st2 ->
+    pause_cancelled cn (t1 + d) = true ->
     step_spec p cn bd st sc t attempt tr
               (Done (mkOut RCtx st2 sc' (cancel_clock cn t1) ((tr ++ [EAttempt t got]) ++ [EPause t1 d])))
 | SSnext bh sc' got st1 o t1 d st2 :
     next_beh sc = (bh, sc') -> serve cn bd st bh t = (got, st1, o, t1) ->
-    generic_retry p attempt o = DWait d -> 0 <= d -> rewind bd st1 = RwOk st2 ->
-    cancelled_before cn (t1 + d) = false ->
+    generic_retry p attempt o = DWait d -> 0 <= d -> rt_rewind bd st1 = RwOk st2 ->
+    pause_cancelled cn (t1 + d) = false ->
     step_spec p cn bd st sc t attempt tr
               (Next st2 sc' (t1 + d) ((tr ++ [EAttempt t got]) ++ [EPause t1 d])).
 
@@ -205,8 +205,8 @@ Proof.
   - eapply SSfail; eauto.
   - destruct (d <? 0) eqn:Hd.
     + eapply SSstop; eauto. right. exists d. split; [exact Hg|left; lia].
-    + destruct (rewind bd st1) as [st2| |] eqn:Hr.
-      * destruct (cancelled_before cn (t1 + d)) eqn:Hc.
+    + destruct (rt_rewind bd st1) as [st2| |] eqn:Hr.
+      * destruct (pause_cancelled cn (t1 + d)) eqn:Hc.
         -- eapply SScancel; eauto. lia.
         -- eapply SSnext; eauto. lia.
       * eapply SSstop; eauto. right. exists d. split; [exact Hg|auto].
@@ -326,7 +326,7 @@ Qed.
 (* Bodies                                                               *)
 
 Definition received (bd : body) (bh : beh) : str := fst (take_body (b_read bh) (bdata bd)).
-Definition wf_body (bd : body) : Prop := bk bd = KNone -> bdata bd = [].
+Definition wf_body (bd : body) : Prop := bk bd = KNone \/ bk bd = KNoBody -> bdata bd = [].
 
 Lemma received_prefix bd bh : exists rest, bdata bd = received bd bh ++ rest.
 Proof.
@@ -344,17 +344,26 @@ Lemma serve_got cn bd st bh t got st1 o t1 :
   s_rest st1 = snd (take_body (b_read bh) (s_rest st)) /\ s_calls st1 = s_calls st.
 Proof.
   unfold serve. destruct (take_body (b_read bh) (s_rest st)) as [g r].
-  destruct (cancelled_before cn (t + b_lat bh)); intro E; injection E as <- <- _ _; auto.
+  destruct (ended_at cn t || cancelled_before cn (t + b_lat bh)); intro E; injection E as <- <- _ _; auto.
 Qed.
 
 Lemma take_body_nil r : take_body r [] = ([], []).
 Proof. destruct r as [k|]; [|reflexivity]. unfold take_body. now rewrite firstn_nil, skipn_nil. Qed.
 
+Lemma rt_rewind_ok bd st st2 : rt_rewind bd st = RwOk st2 -> rewind bd st = RwOk st2.
+Proof. unfold rt_rewind. destruct (bk bd); auto; discriminate. Qed.
+
+Lemma rt_rewind_not_replayable bd :
+  (forall st', rewind bd st' = RwNoGetBody \/ rewind bd st' = RwGetBodyErr) ->
+  forall st', rt_rewind bd st' = RwNoGetBody \/ rt_rewind bd st' = RwGetBodyErr.
+Proof. intros H st'. unfold rt_rewind. destruct (bk bd); auto. Qed.
+
 Lemma rewind_fresh bd st st2 :
-  wf_body bd -> (bk bd = KNone -> s_rest st = []) -> rewind bd st = RwOk st2 -> s_rest st2 = bdata bd.
+  wf_body bd -> (bk bd = KNone \/ bk bd = KNoBody -> s_rest st = []) -> rewind bd st = RwOk st2 -> s_rest st2 = bdata bd.
 Proof.
-  unfold rewind, wf_body. intros Hwf Hn. destruct (bk bd) as [| | |k].
-  - intro E. injection E as <-. rewrite Hn, Hwf; reflexivity.
+  unfold rewind, wf_body. intros Hwf Hn. destruct (bk bd) as [| | | |k].
+  - intro E. injection E as <-. rewrite Hn, Hwf; auto.
+  - intro E. injection E as <-. rewrite Hn, Hwf; auto.
   - intro E. now injection E as <-.
   - discriminate.
   - destruct (s_calls st <? k)%nat; [|discriminate]. intro E. now injection E as <-.
@@ -390,7 +399,7 @@ Lemma round_trip_bodies_gen p cn bd sc0 base st t :
   let out := round_trip p cn bd st (skipn base sc0) t in
   bodies_ok bd sc0 base (attempts (o_trace out)) /\
   o_script out = skipn (base + length (attempts (o_trace out))) sc0 /\
-  (bk bd = KNone -> s_rest (o_st out) = []).
+  (bk bd = KNone \/ bk bd = KNoBody -> s_rest (o_st out) = []).
 Proof.
   intros Hwf Hfresh.
   apply (round_trip_inv p cn bd
@@ -398,7 +407,7 @@ Proof.
                             bodies_ok bd sc0 base (attempts tr))
      (fun o => bodies_ok bd sc0 base (attempts (o_trace o)) /\
                o_script o = skipn (base + length (attempts (o_trace o))) sc0 /\
-               (bk bd = KNone -> s_rest (o_st o) = []))).
+               (bk bd = KNone \/ bk bd = KNoBody -> s_rest (o_st o) = []))).
   2:{ cbn [attempts length]. rewrite Nat.add_0_r. repeat split; auto.
       intros i t' got Hi. destruct i; discriminate. }
   intros st0 sc1 t0 a tr (Hr & Hsc & Hb) Ha.
@@ -407,7 +416,7 @@ Proof.
              next_beh sc1 = (bh, sc') -> serve cn bd st0 bh t0 = (got, st1, o, t1) ->
              bodies_ok bd sc0 base (attempts tr ++ [(t0, got)]) /\
              sc' = skipn (base + length (attempts tr ++ [(t0, got)])) sc0 /\
-             (bk bd = KNone -> s_rest st1 = [])).
+             (bk bd = KNone \/ bk bd = KNoBody -> s_rest st1 = [])).
   { intros bh sc' got st1 o t1 Hn Hs.
     subst sc1. rewrite next_beh_skipn in Hn. injection Hn as <- <-.
     apply serve_got in Hs. destruct Hs as (Hg & Hrest & _). rewrite Hr in Hg, Hrest.
@@ -425,11 +434,12 @@ Proof.
   - auto.
   - auto.
   - repeat split; auto. intro Hk.
-    match goal with Hrw : rewind _ _ = RwOk _ |- _ =>
-      unfold rewind in Hrw; rewrite Hk in Hrw; injection Hrw as <- end. auto.
+    match goal with Hrw : rt_rewind _ _ = RwOk _ |- _ =>
+      apply rt_rewind_ok in Hrw; unfold rewind in Hrw;
+      destruct Hk as [Hk|Hk]; rewrite Hk in Hrw; injection Hrw as <- end; auto.
   - repeat split; auto.
-    match goal with Hrw : rewind _ _ = RwOk _ |- _ =>
-      eapply rewind_fresh; [exact Hwf| |exact Hrw] end. exact B3.
+    match goal with Hrw : rt_rewind _ _ = RwOk _ |- _ =>
+      apply rt_rewind_ok in Hrw; eapply rewind_fresh; [exact Hwf| |exact Hrw] end. exact B3.
 Qed.
 
 Lemma round_trip_bodies p cn bd sc st t :
@@ -459,8 +469,10 @@ Proof.
   - exists bh, sc', got, st1, o, t1. auto.
   - exists bh, sc', got, st1, o, t1. auto 6.
   - exists bh, sc', got, st1, o, t1. auto 6.
-  - match goal with Hr : rewind _ _ = RwOk _ |- _ => destruct (Hrw st1) as [E|E]; rewrite E in Hr; discriminate end.
-  - match goal with Hr : rewind _ _ = RwOk _ |- _ => destruct (Hrw st1) as [E|E]; rewrite E in Hr; discriminate end.
+  - match goal with Hr : rt_rewind _ _ = RwOk _ |- _ =>
+      destruct (rt_rewind_not_replayable bd Hrw st1) as [E|E]; rewrite E in Hr; discriminate end.
+  - match goal with Hr : rt_rewind _ _ = RwOk _ |- _ =>
+      destruct (rt_rewind_not_replayable bd Hrw st1) as [E|E]; rewrite E in Hr; discriminate end.
 Qed.
 
 Lemma oneshot_not_replayable bd : bk bd = KOneShot ->
@@ -470,64 +482,92 @@ Proof. intros H st'. left. unfold rewind. now rewrite H. Qed.
 (* ------------------------------------------------------------------ *)
 (* Cancellation                                                         *)
 
-Lemma serve_time_cancel tc dl bd st bh t got st1 o t1 :
-  t <= tc -> serve (Some (tc, dl)) bd st bh t = (got, st1, o, t1) ->
-  t1 <= tc /\ (t1 = tc -> t + b_lat bh <= tc \/ o = ctx_outcome dl).
+(* the select of the current source: a pause ending at x ends the call iff the context has
+   ended by then (the generated flag says the timer branch re-checks ctx.Err()) *)
+Lemma pause_cancelled_spec tc dl x : pause_cancelled (Some (tc, dl)) x = (tc <=? x).
 Proof.
-  unfold serve. intros Ht. destruct (take_body (b_read bh) (s_rest st)) as [g r].
-  cbn [cancelled_before cancel_outcome cancel_clock].
-  destruct (tc <? t + b_lat bh) eqn:E; intro H; injection H as _ _ <- <-.
-  - split; [lia|auto].
-  - split; [lia|intro; left; lia].
+  unfold pause_cancelled, pause_cancelled_gen.
+  replace rt_checks_ctx_after_timer with true by reflexivity. reflexivity.
 Qed.
 
-Definition cancel_post (tc : Z) (o : rt_out) : Prop :=
-  Forall (fun a => fst a <= tc) (attempts (o_trace o)) /\
-  o_time o <= tc /\
-  Forall (fun pd => fst pd <= tc /\
-                    (fst pd + snd pd <= tc \/ (o_res o = RCtx /\ o_time o = tc)))
-         (pauses (o_trace o)).
+(* the original select: the loop could go on at an instant at which the context had ended *)
+Lemma pause_cancelled_prefix_refuted :
+  exists cn x, ended_at cn x = true /\ pause_cancelled_gen false cn x = false.
+Proof. exists (Some (5, true)), 5. split; reflexivity. Qed.
 
-(* no attempt starts after the context ended; the call is over by then; and a
-   context that ends during a pause ends the call with the context's error *)
-Lemma round_trip_cancel p bd st sc t tc dl :
-  t <= tc -> cancel_post tc (round_trip p (Some (tc, dl)) bd st sc t).
+Lemma serve_time_cancel tc dl bd st bh t got st1 o t1 :
+  serve (Some (tc, dl)) bd st bh t = (got, st1, o, t1) ->
+  t1 <= Z.max t tc /\ (t < tc -> t1 <= tc) /\ (tc <= t -> t1 = Z.max t tc).
 Proof.
-  intro Ht.
+  unfold serve. destruct (take_body (b_read bh) (s_rest st)) as [g r].
+  cbn [ended_at cancelled_before cancel_outcome cancel_clock].
+  destruct (tc <=? t) eqn:E1; destruct (tc <? t + b_lat bh) eqn:E2; cbn [orb];
+    intro H; injection H as _ _ _ <-; lia.
+Qed.
+
+Lemma tl_snoc {A} (l : list A) x : tl (l ++ [x]) = match l with [] => [] | _ => tl l ++ [x] end.
+Proof. destruct l; reflexivity. Qed.
+
+(* context ending at tc, call started at t *)
+Definition cancel_post (tc t : Z) (o : rt_out) : Prop :=
+  Forall (fun a => fst a < tc) (tl (attempts (o_trace o))) /\
+  o_time o <= Z.max t tc /\
+  Forall (fun pd => fst pd + snd pd < tc \/ (o_res o = RCtx /\ o_time o = Z.max (fst pd) tc))
+         (pauses (o_trace o)) /\
+  (tc <= t -> length (attempts (o_trace o)) = 1%nat).
+
+(* every attempt but the first of a send starts strictly before the context ends; the call is
+   over when the context ends; a pause the context ends in (or has ended before: zero pauses,
+   contexts that were over from the start) ends the call with the context's error; a context
+   that is over when the call starts allows the first attempt only.  No hypothesis on the
+   policy (MinWait = 0 included), the start instant or the script. *)
+Lemma round_trip_cancel p bd st sc t tc dl :
+  cancel_post tc t (round_trip p (Some (tc, dl)) bd st sc t).
+Proof.
   apply (round_trip_inv p (Some (tc, dl)) bd
-     (fun _ _ t' _ tr => t' <= tc /\ Forall (fun a => fst a <= tc) (attempts tr) /\
-                         Forall (fun pd => fst pd <= tc /\ fst pd + snd pd <= tc) (pauses tr))
-     (cancel_post tc)).
+     (fun _ _ t' _ tr => ((tr = [] /\ t' = t) \/ (attempts tr <> [] /\ t' < tc /\ t < tc)) /\
+                         Forall (fun a => fst a < tc) (tl (attempts tr)) /\
+                         Forall (fun pd => fst pd + snd pd < tc) (pauses tr))
+     (cancel_post tc t)).
   2:{ repeat split; auto; constructor. }
-  intros st0 sc0 t0 a tr (Ht0 & Ha & Hp) _.
+  intros st0 sc0 t0 a tr (Hpos & Ha & Hp) _.
   pose proof (rt_step_spec p (Some (tc, dl)) bd st0 sc0 t0 a tr) as H.
-  assert (Hweak : Forall (fun pd => fst pd <= tc /\ (fst pd + snd pd <= tc \/ (RCtx = RCtx /\ tc = tc)))
-                         (pauses tr)).
-  { eapply Forall_impl; [|exact Hp]. intros pd (A & B). auto. }
+  assert (Hold : forall (o : rt_out), Forall (fun pd => fst pd + snd pd < tc \/
+                    (o_res o = RCtx /\ o_time o = Z.max (fst pd) tc)) (pauses tr)).
+  { intro o. eapply Forall_impl; [|exact Hp]. intros pd A. auto. }
+  assert (Hatt : forall got, Forall (fun a => fst a < tc) (tl (attempts tr ++ [(t0, got)]))).
+  { intro got. rewrite tl_snoc. destruct Hpos as [[-> _]|(Hne & Hlt & _)].
+    - constructor.
+    - destruct (attempts tr) eqn:E; [congruence|]. rewrite <- E in *.
+      apply Forall_app. split; [exact Ha|]. constructor; [exact Hlt|constructor]. }
+  assert (Hlen : forall got, tc <= t -> length (attempts tr ++ [(t0, got)]) = 1%nat).
+  { intros got Hge. destruct Hpos as [[-> _]|(_ & _ & Hlt)]; [reflexivity|lia]. }
   unfold cancel_post.
   inversion H; subst; cbn [o_trace o_time o_res];
     rewrite ?attempts_app, ?pauses_app; cbn [attempts pauses]; rewrite ?app_nil_r;
     match goal with Hs : serve _ _ _ _ _ = _ |- _ =>
-      destruct (serve_time_cancel _ _ _ _ _ _ _ _ _ _ Ht0 Hs) as (T1 & _) end.
-  - repeat split; auto.
-    + apply Forall_app. split; [exact Ha|]. constructor; [exact Ht0|constructor].
-    + eapply Forall_impl; [|exact Hp]. intros pd (A & B). auto.
-  - repeat split; auto.
-    + apply Forall_app. split; [exact Ha|]. constructor; [exact Ht0|constructor].
-    + eapply Forall_impl; [|exact Hp]. intros pd (A & B). auto.
-  - repeat split; auto.
-    + apply Forall_app. split; [exact Ha|]. constructor; [exact Ht0|constructor].
-    + eapply Forall_impl; [|exact Hp]. intros pd (A & B). auto.
-  - cbn [cancel_clock]. rewrite Z.max_r by exact T1.
-    repeat split; auto; try lia.
-    + apply Forall_app. split; [exact Ha|]. constructor; [exact Ht0|constructor].
-    + apply Forall_app. split.
-      * eapply Forall_impl; [|exact Hp]. intros pd (A & B). auto.
-      * constructor; [|constructor]. cbn [fst snd]. auto.
-  - match goal with Hc : cancelled_before _ _ = false |- _ => cbn [cancelled_before] in Hc end.
-    repeat split; try lia.
-    + apply Forall_app. split; [exact Ha|]. constructor; [exact Ht0|constructor].
-    + apply Forall_app. split; [exact Hp|]. constructor; [|constructor]. cbn [fst snd]. lia.
+      destruct (serve_time_cancel _ _ _ _ _ _ _ _ _ _ Hs) as (T1 & T2 & T3) end.
+  - repeat split; auto; try (eapply Forall_impl; [|exact Hp]; intros pd A; left; exact A).
+    destruct Hpos as [[_ ->]|(_ & Hlt & _)]; [exact T1|specialize (T2 Hlt); lia].
+  - repeat split; auto; try (eapply Forall_impl; [|exact Hp]; intros pd A; left; exact A).
+    destruct Hpos as [[_ ->]|(_ & Hlt & _)]; [exact T1|specialize (T2 Hlt); lia].
+  - repeat split; auto; try (eapply Forall_impl; [|exact Hp]; intros pd A; left; exact A).
+    destruct Hpos as [[_ ->]|(_ & Hlt & _)]; [exact T1|specialize (T2 Hlt); lia].
+  - cbn [cancel_clock]. repeat split; auto.
+    + destruct Hpos as [[_ ->]|(_ & Hlt & _)]; [lia|specialize (T2 Hlt); lia].
+    + apply Forall_app. split; [eapply Forall_impl; [|exact Hp]; intros pd A; left; exact A|].
+      constructor; [|constructor]. cbn [fst snd]. right. split; reflexivity.
+  - assert (Hc : t1 + d < tc).
+    { match goal with Hx : pause_cancelled _ _ = false |- _ =>
+        rewrite pause_cancelled_spec in Hx; apply Z.leb_gt in Hx; exact Hx end. }
+    assert (Htlt : t < tc).
+    { destruct Hpos as [[_ ->]|(_ & _ & Hlt)]; [|exact Hlt].
+      destruct (Z.lt_ge_cases t tc) as [L|G]; [exact L|]. specialize (T3 G). lia. }
+    split; [|split].
+    + right. split; [|split; [assumption|exact Htlt]].
+      destruct (attempts tr); discriminate.
+    + apply Hatt.
+    + apply Forall_app. split; [exact Hp|]. constructor; [|constructor]. cbn [fst snd]. exact Hc.
 Qed.
 
 (* without a cancellation no call ends with the context's error unless the base
@@ -747,31 +787,133 @@ Proof.
       apply andb_false_iff in E2. destruct E2 as [E2|E2]; apply Z.leb_gt in E2; lia.
 Qed.
 
-(* cancellation through the auth client: no request of any send starts after the
-   context ended, and the call is over by then *)
-Lemma auth_do_cancel warm p bd sc tc dl :
-  0 <= tc ->
-  let a := auth_do warm p (Some (tc, dl)) bd sc in
-  Forall (fun x => fst x <= tc) (attempts (a_first a) ++ attempts (a_second a) ++ attempts (a_third a)) /\
-  a_time a <= tc.
+(* cancellation through the auth client and the blob push *)
+
+Definition all_pauses (a : auth_out) : list (Z * Z) :=
+  pauses (a_first a) ++ pauses (a_second a) ++ pauses (a_third a).
+
+(* [res], [time]: how the whole call ended *)
+Definition sends_cancel_post (tc t0 : Z) (res : result) (time : Z) (a : auth_out) : Prop :=
+  Forall (fun x => fst x < tc) (tl (attempts (a_first a))) /\
+  Forall (fun x => fst x < tc) (tl (attempts (a_second a))) /\
+  Forall (fun x => fst x < tc) (tl (attempts (a_third a))) /\
+  a_time a <= Z.max t0 tc /\
+  Forall (fun pd => fst pd + snd pd < tc \/ (res = RCtx /\ time = Z.max (fst pd) tc)) (all_pauses a).
+
+Lemma cancel_post_pauses_done tc t o :
+  cancel_post tc t o -> o_res o <> RCtx ->
+  Forall (fun pd => fst pd + snd pd < tc) (pauses (o_trace o)).
 Proof.
-  intro Htc. unfold auth_do, auth_do_at.
-  destruct (round_trip_cancel p bd (init_state bd) sc 0 tc dl Htc) as (A1 & T1 & _).
-  set (o1 := round_trip p (Some (tc, dl)) bd (init_state bd) sc 0) in *.
-  destruct (challenged (o_res o1));
-    [|cbn [a_first a_second a_third a_time attempts]; rewrite !app_nil_r; split; assumption].
-  destruct (rewind bd (o_st o1)) as [st2| |]; cbn [a_first a_second a_third a_time attempts];
-    try (rewrite !app_nil_r; split; assumption).
-  destruct (round_trip_cancel p bd st2 (o_script o1) (o_time o1) tc dl T1) as (A2 & T2 & _).
+  intros (_ & _ & Hp & _) Hne. eapply Forall_impl; [|exact Hp].
+  intros pd [A|[A _]]; [exact A|congruence].
+Qed.
+
+Lemma pauses_done_weaken tc (res : result) (time : Z) l :
+  Forall (fun pd : Z * Z => fst pd + snd pd < tc) l ->
+  Forall (fun pd => fst pd + snd pd < tc \/ (res = RCtx /\ time = Z.max (fst pd) tc)) l.
+Proof. intro H. eapply Forall_impl; [|exact H]. intros pd A. left. exact A. Qed.
+
+Lemma challenged_not_ctx r : challenged r = true -> r <> RCtx.
+Proof. destruct r; cbn; congruence. Qed.
+Lemma unauthorized_not_ctx r : unauthorized r = true -> r <> RCtx.
+Proof. destruct r; cbn; congruence. Qed.
+Lemma accepted_not_ctx r : accepted r = true -> r <> RCtx.
+Proof. destruct r; cbn; congruence. Qed.
+
+Lemma plain_do_at_cancel p bd sc t0 tc dl :
+  let a := plain_do_at p (Some (tc, dl)) bd sc t0 in
+  sends_cancel_post tc t0 (a_res a) (a_time a) a.
+Proof.
+  unfold plain_do_at, sends_cancel_post, all_pauses. cbn [a_first a_second a_third a_res a_time attempts pauses tl].
+  destruct (round_trip_cancel p bd (init_state bd) sc t0 tc dl) as (A1 & T1 & P1 & _).
+  rewrite !app_nil_r. repeat split; auto.
+Qed.
+
+Lemma auth_do_at_cancel warm p bd sc t0 tc dl :
+  let a := auth_do_at warm p (Some (tc, dl)) bd sc t0 in
+  sends_cancel_post tc t0 (a_res a) (a_time a) a.
+Proof.
+  unfold auth_do_at, sends_cancel_post, all_pauses.
+  pose proof (round_trip_cancel p bd (init_state bd) sc t0 tc dl) as C1.
+  set (o1 := round_trip p (Some (tc, dl)) bd (init_state bd) sc t0) in *.
+  destruct (challenged (o_res o1)) eqn:Hch.
+  2:{ cbn [a_first a_second a_third a_res a_time attempts pauses tl]. rewrite !app_nil_r.
+      destruct C1 as (A1 & T1 & P1 & _). repeat split; auto. }
+  pose proof (cancel_post_pauses_done _ _ _ C1 (challenged_not_ctx _ Hch)) as D1.
+  destruct C1 as (A1 & T1 & _ & _).
+  destruct (rewind bd (o_st o1)) as [st2| |];
+    cbn [a_first a_second a_third a_res a_time attempts pauses tl]; rewrite ?app_nil_r;
+    try (repeat split; auto; apply pauses_done_weaken; exact D1).
+  pose proof (round_trip_cancel p bd st2 (o_script o1) (o_time o1) tc dl) as C2.
   set (o2 := round_trip p (Some (tc, dl)) bd st2 (o_script o1) (o_time o1)) in *.
-  destruct (warm && bearer_challenged (o_res o1) && unauthorized (o_res o2)).
-  2:{ cbn [a_first a_second a_third a_time attempts]. rewrite app_nil_r.
-      split; [apply Forall_app; split; assumption|assumption]. }
-  destruct (rewind bd (o_st o2)) as [st3| |]; cbn [a_first a_second a_third a_time attempts];
-    try (rewrite app_nil_r; split; [apply Forall_app; split; assumption|assumption]).
-  destruct (round_trip_cancel p bd st3 (o_script o2) (o_time o2) tc dl T2) as (A3 & T3 & _).
-  split; [|assumption].
-  apply Forall_app; split; [assumption|]. apply Forall_app; split; assumption.
+  destruct (warm && bearer_challenged (o_res o1) && unauthorized (o_res o2)) eqn:Hw.
+  2:{ cbn [a_first a_second a_third a_res a_time attempts pauses tl]. rewrite !app_nil_r.
+      destruct C2 as (A2 & T2 & P2 & _). repeat split; auto; [lia|].
+      apply Forall_app. split; [apply pauses_done_weaken; exact D1|exact P2]. }
+  apply andb_true_iff in Hw. destruct Hw as [_ Hun].
+  pose proof (cancel_post_pauses_done _ _ _ C2 (unauthorized_not_ctx _ Hun)) as D2.
+  destruct C2 as (A2 & T2 & _ & _).
+  destruct (rewind bd (o_st o2)) as [st3| |];
+    cbn [a_first a_second a_third a_res a_time attempts pauses tl]; rewrite ?app_nil_r;
+    try (repeat split; auto; [lia|apply Forall_app; split; apply pauses_done_weaken; assumption]).
+  destruct (round_trip_cancel p bd st3 (o_script o2) (o_time o2) tc dl) as (A3 & T3 & P3 & _).
+  repeat split; auto; [lia|].
+  apply Forall_app. split; [apply pauses_done_weaken; exact D1|].
+  apply Forall_app. split; [apply pauses_done_weaken; exact D2|exact P3].
+Qed.
+
+Lemma auth_do_cancel warm p bd sc tc dl :
+  let a := auth_do warm p (Some (tc, dl)) bd sc in
+  sends_cancel_post tc 0 (a_res a) (a_time a) a.
+Proof. exact (auth_do_at_cancel warm p bd sc 0 tc dl). Qed.
+
+Lemma sends_pauses_done tc t0 a :
+  sends_cancel_post tc t0 (a_res a) (a_time a) a -> a_res a <> RCtx ->
+  Forall (fun pd => fst pd + snd pd < tc) (all_pauses a).
+Proof.
+  intros (_ & _ & _ & _ & Hp) Hne. eapply Forall_impl; [|exact Hp].
+  intros pd [A|[A _]]; [exact A|congruence].
+Qed.
+
+(* blob push under a context ending at tc: POST and PUT requests other than the first of a
+   send start before tc, the push is over at tc, and a pause the context ends in ends the
+   push with the context's error *)
+Lemma blob_push_cancel authc warm0 p bd sc tc dl :
+  let u := blob_push_gen authc warm0 p (Some (tc, dl)) bd sc in
+  sends_cancel_post tc 0 (u_res u) (u_time u) (u_post u) /\
+  u_time u <= Z.max 0 tc /\
+  match u_put u with
+  | Some put => exists t1, t1 <= Z.max 0 tc /\ sends_cancel_post tc t1 (u_res u) (u_time u) put
+  | None => True
+  end.
+Proof.
+  unfold blob_push_gen.
+  assert (Hpost : let post := if authc then auth_do_at false p (Some (tc, dl)) no_body sc 0
+                              else plain_do_at p (Some (tc, dl)) no_body sc 0 in
+                  sends_cancel_post tc 0 (a_res post) (a_time post) post).
+  { destruct authc; [apply auth_do_at_cancel|apply plain_do_at_cancel]. }
+  cbv zeta in Hpost.
+  set (post := if authc then auth_do_at false p (Some (tc, dl)) no_body sc 0
+               else plain_do_at p (Some (tc, dl)) no_body sc 0) in *.
+  destruct (accepted (a_res post)) eqn:Hacc; cbn [u_res u_time u_post u_put].
+  2:{ split; [exact Hpost|]. split; [|exact I]. destruct Hpost as (_ & _ & _ & T & _). exact T. }
+  pose proof (sends_pauses_done _ _ _ Hpost (accepted_not_ctx _ Hacc)) as Dp.
+  destruct Hpost as (A1 & A2 & A3 & Tp & _).
+  set (sc' := skipn (length (auth_attempts post)) sc).
+  assert (Hput : let put := if authc && negb (warm0 || match attempts (a_second post) with [] => false | _ :: _ => true end)
+                            then auth_do_at false p (Some (tc, dl)) bd sc' (a_time post)
+                            else plain_do_at p (Some (tc, dl)) bd sc' (a_time post) in
+                 sends_cancel_post tc (a_time post) (a_res put) (a_time put) put).
+  { destruct (authc && negb (warm0 || match attempts (a_second post) with [] => false | _ :: _ => true end));
+      [apply auth_do_at_cancel|apply plain_do_at_cancel]. }
+  cbv zeta in Hput.
+  set (put := if authc && negb (warm0 || match attempts (a_second post) with [] => false | _ :: _ => true end)
+              then auth_do_at false p (Some (tc, dl)) bd sc' (a_time post)
+              else plain_do_at p (Some (tc, dl)) bd sc' (a_time post)) in *.
+  split; [|split].
+  - repeat split; auto. apply pauses_done_weaken. exact Dp.
+  - destruct Hput as (_ & _ & _ & T & _). lia.
+  - exists (a_time post). split; [exact Tp|exact Hput].
 Qed.
 
 (* ------------------------------------------------------------------ *)
@@ -818,36 +960,36 @@ Qed.
 (* blob push: every request of the PUT -- first attempt, retries, re-send after a challenge --
    carries the blob as far as the registry reads it; the script position of the PUT's
    requests starts after the POST's *)
-Lemma blob_push_bodies authc p cn bd sc :
+Lemma blob_push_bodies authc warm0 p cn bd sc :
   wf_body bd ->
-  match u_put (blob_push authc p cn bd sc) with
-  | Some put => bodies_ok bd sc (length (auth_attempts (u_post (blob_push authc p cn bd sc)))) (auth_attempts put)
+  match u_put (blob_push_gen authc warm0 p cn bd sc) with
+  | Some put => bodies_ok bd sc (length (auth_attempts (u_post (blob_push_gen authc warm0 p cn bd sc)))) (auth_attempts put)
   | None => True
   end.
 Proof.
-  intro Hwf. unfold blob_push.
+  intro Hwf. unfold blob_push_gen.
   set (post := if authc then auth_do_at false p cn no_body sc 0 else plain_do_at p cn no_body sc 0).
   destruct (accepted (a_res post)); cbn [u_put u_post]; [|exact I].
-  destruct (authc && negb match attempts (a_second post) with [] => false | _ :: _ => true end).
+  destruct (authc && negb (warm0 || match attempts (a_second post) with [] => false | _ :: _ => true end)).
   - apply auth_do_at_bodies_gen. exact Hwf.
   - apply plain_do_at_bodies_gen. exact Hwf.
 Qed.
 
 (* a one-shot blob is sent once by the PUT; nothing truncated is ever re-sent *)
-Lemma blob_push_not_replayable authc p cn bd sc :
+Lemma blob_push_not_replayable authc warm0 p cn bd sc :
   (forall st', rewind bd st' = RwNoGetBody \/ rewind bd st' = RwGetBodyErr) ->
-  match u_put (blob_push authc p cn bd sc) with
+  match u_put (blob_push_gen authc warm0 p cn bd sc) with
   | Some put => length (auth_attempts put) = 1%nat
   | None => True
   end.
 Proof.
-  intro Hrw. unfold blob_push.
+  intro Hrw. unfold blob_push_gen.
   set (post := if authc then auth_do_at false p cn no_body sc 0 else plain_do_at p cn no_body sc 0).
   destruct (accepted (a_res post)); cbn [u_put]; [|exact I].
   set (sc' := skipn (length (auth_attempts post)) sc).
   destruct (round_trip_not_replayable p cn bd (init_state bd) sc' (a_time post) Hrw)
     as (bh & sc'' & got & st1 & o & t1 & _ & _ & Htr & _).
-  destruct (authc && negb match attempts (a_second post) with [] => false | _ :: _ => true end).
+  destruct (authc && negb (warm0 || match attempts (a_second post) with [] => false | _ :: _ => true end)).
   - unfold auth_do_at, auth_attempts.
     set (o1 := round_trip p cn bd (init_state bd) sc' (a_time post)) in *.
     destruct (challenged (o_res o1)).
@@ -855,4 +997,73 @@ Proof.
         rewrite Htr; reflexivity.
     + cbn [a_first a_second a_third attempts]. rewrite Htr. reflexivity.
   - unfold plain_do_at, auth_attempts. cbn [a_first a_second a_third attempts]. rewrite Htr. reflexivity.
+Qed.
+
+(* ------------------------------------------------------------------ *)
+(* "Non-retryable answers are returned at once", on the whole trace (no cancellation):
+   every answer but the last was retryable for the policy's predicate, and the call returns
+   the last answer (or the predicate's error for it, or the backoff's panic) *)
+
+Lemma serve_none bd st bh t :
+  exists got st1, serve None bd st bh t = (got, st1, b_out bh, t + b_lat bh).
+Proof.
+  unfold serve. destruct (take_body (b_read bh) (s_rest st)) as [g r]. cbn. eauto.
+Qed.
+
+Lemma pause_cancelled_none x : pause_cancelled None x = false.
+Proof. unfold pause_cancelled, pause_cancelled_gen. destruct rt_checks_ctx_after_timer; reflexivity. Qed.
+
+Definition last_answer (sc : list beh) (n : nat) : outcome := b_out (nth (n - 1) sc default_beh).
+
+Lemma round_trip_stops_at_first_nonretryable p bd st sc t :
+  let out := round_trip p None bd st sc t in
+  let n := length (attempts (o_trace out)) in
+  (forall i, (S i < n)%nat -> p_pred p (b_out (nth i sc default_beh)) = PRetry) /\
+  (1 <= n)%nat /\
+  (o_res out = result_of_outcome (last_answer sc n) \/ o_res out = fail_result (last_answer sc n) \/
+   o_res out = RPanic).
+Proof.
+  apply (round_trip_inv p None bd
+     (fun _ sc' _ _ tr => sc' = skipn (length (attempts tr)) sc /\
+                          forall i, (i < length (attempts tr))%nat -> p_pred p (b_out (nth i sc default_beh)) = PRetry)
+     (fun o => let n := length (attempts (o_trace o)) in
+               (forall i, (S i < n)%nat -> p_pred p (b_out (nth i sc default_beh)) = PRetry) /\
+               (1 <= n)%nat /\
+               (o_res o = result_of_outcome (last_answer sc n) \/ o_res o = fail_result (last_answer sc n) \/
+                o_res o = RPanic))).
+  2:{ split; [reflexivity|]. intros i Hi. cbn in Hi. lia. }
+  intros st0 sc0 t0 a tr (Hsc & Hpre) _.
+  pose proof (rt_step_spec p None bd st0 sc0 t0 a tr) as H.
+  assert (Hlen : forall got, length (attempts tr ++ [(t0, got)]) = S (length (attempts tr)))
+    by (intro got; rewrite app_length; cbn; lia).
+  inversion H; subst; cbn [o_trace o_res];
+    rewrite ?attempts_app; cbn [attempts]; rewrite ?app_nil_r; cbv zeta; rewrite ?Hlen;
+    match goal with Hn : next_beh _ = _, Hs : serve _ _ _ _ _ = _ |- _ =>
+      rewrite next_beh_skipn in Hn; injection Hn as <- <-;
+      destruct (serve_none bd st0 (nth (length (attempts tr)) sc default_beh) t0) as (g' & s' & Hs');
+      rewrite Hs' in Hs; injection Hs as <- <- <- <- end;
+    unfold last_answer; replace (S (length (attempts tr)) - 1)%nat with (length (attempts tr)) by lia.
+  - split; [intros i Hi; apply Hpre; lia|]. split; [lia|]. auto.
+  - split; [intros i Hi; apply Hpre; lia|]. split; [lia|]. auto.
+  - split; [intros i Hi; apply Hpre; lia|]. split; [lia|]. auto.
+  - match goal with Hc : pause_cancelled None _ = true |- _ => rewrite pause_cancelled_none in Hc; discriminate end.
+  - split.
+    + reflexivity.
+    + intros i Hi.
+      destruct (Nat.eq_dec i (length (attempts tr))) as [->|Hne]; [|apply Hpre; lia].
+      match goal with Hg : generic_retry _ _ _ = DWait _ |- _ => apply generic_retry_wait_lt in Hg; apply Hg end.
+Qed.
+
+(* an ill-formed policy (MinWait > MaxWait): every pause is MaxWait *)
+Lemma generic_retry_min_gt_max p attempt o d :
+  p_max p < p_min p -> generic_retry p attempt o = DWait d -> d = p_max p.
+Proof.
+  intro H. unfold generic_retry.
+  destruct (attempt >=? p_max_retry p); [discriminate|].
+  destruct (p_pred p o); try discriminate.
+  destruct (p_backoff p attempt o) as [x|]; [|discriminate].
+  intro E. injection E as <-. unfold clamp.
+  destruct (x <? p_min p) eqn:E1.
+  - destruct (p_min p >? p_max p) eqn:E2; lia.
+  - destruct (x >? p_max p) eqn:E2; lia.
 Qed.
